@@ -28,7 +28,7 @@ func init() {
 		"Decides the code-shape obligations of single-flight loading on every path: a call record is created only inside the in-flight table's computation when none exists (C08.getorcreate); doCall/doBulkCall register, before invoking the loader, a deferred recover that finishes the record(s) (C08.finish); the finish callback clears the record if it is still its own and releases the waiters exactly once after the table computation (C08.release); every record obtained with shouldLoad is dispatched exactly once before any wait and records obtained without it are only waited on (C08.dispatch). "+
 			"NOT decided: non-overlap of loader invocations in time and termination under all interleavings.",
 		[]string{"sync.WaitGroup semantics", "the executor runs submitted closures"},
-		ruleLoadLemma, ruleLoadOps, ruleBulkOps, ruleC10TableC10, ruleC08GetOrCreate, ruleC08Finish, ruleC10Inv, ruleC10Distribute, ruleC10Finisher, ruleC09Clear, ruleC08TableOnce, ruleC02LockOrder)
+		ruleLoadLemma, ruleLoadOps, ruleBulkOps, ruleC10TableC10, ruleC08GetOrCreate, ruleC08Finish, ruleC10Inv, ruleC10Distribute, ruleC10Finisher, ruleC09Clear, ruleC08TableOnce, ruleC02LockOrder, ruleC08Wait)
 }
 
 func init() {
@@ -41,7 +41,7 @@ func init() {
 		"Decides the structural clauses of refresh on every enumerated path: a hit returns the value cached at that moment and never loads inline (C11.old); a reload is scheduled only on the not-fresh edge and only inside an executor closure (C11.trigger); Reload gets the old value, Load is used for absent keys (C11.reloadarg); without refresh configured nothing is returned or scheduled, a manual refresh returns a capacity-1 channel and sends exactly one result on every non-panicking path, automatic refreshes send nothing (C11.chan); a failed reload keeps the entry and its expiry, a not-found reload of its own record removes it, a successful own reload installs (C10.table, C12.hook failure rows); an operation that writes nothing (SetIfAbsent on a live key, a cancelled compute) leaves the reload in flight, so its result still replaces the value (C09.clear). "+
 			"NOT decided: timing around the deadline and behaviour of asynchronous executors; one genuine defect is a known finding (bulk refresh leaves records in flight when a loader panic is re-raised).",
 		[]string{"the executor runs submitted closures", "loaders are opaque user functions"},
-		ruleLoadLemma, ruleLoadOps, ruleBulkOps, ruleC11ReloadArg, ruleC10TableC10, ruleC10Inv, ruleC10Distribute, ruleC10Finisher, ruleC12Hooks, ruleC09Clear, ruleC12Calc, ruleC10Adapter)
+		ruleLoadLemma, ruleLoadOps, ruleBulkOps, ruleC11ReloadArg, ruleC10TableC10, ruleC10Inv, ruleC10Distribute, ruleC10Finisher, ruleC12Hooks, ruleC09Clear, ruleC12Calc, ruleC10Adapter, ruleC08Wait)
 }
 
 func init() {
